@@ -141,9 +141,16 @@ class BaseFileWriterSession(BaseWriterSession):
             _logger.exception('Failed to parse date.')
             return
 
-        last_modified = time.mktime(last_modified)
+        if not last_modified:
+            _logger.debug('Failed to parse date.')
+            return
 
-        os.utime(filename, (time.time(), last_modified))
+        try:
+            last_modified = time.mktime(last_modified)
+
+            os.utime(filename, (time.time(), last_modified))
+        except (OverflowError, ValueError):
+            _logger.debug('Date out of range.', exc_info=True)
 
     @classmethod
     def save_headers(cls, filename: str, response: HTTPResponse):
